@@ -19,6 +19,7 @@ CONSTANTS
   UntypedDedup = FALSE
   DeriveFrom <- DeriveM1
   DeriveForget = FALSE
+  PartialFlush = FALSE
   SnapFirst = TRUE
 VIEW View
 INVARIANTS TypeOK AllReadable BroughtBack NoDangling
